@@ -24,6 +24,7 @@ pub enum Kind {
     CasWeak,
     FetchAdd,
     FetchSub,
+    Fence,
 }
 
 /// One atomic access, as seen by the hook.
@@ -242,6 +243,30 @@ impl AtomicUsize {
                 h.after(&a, old, true);
                 old
             }
+        }
+    }
+}
+
+/// Shimmed `core::sync::atomic::fence`.
+#[track_caller]
+pub fn fence(ord: Ordering) {
+    match hook() {
+        None => core::sync::atomic::fence(ord),
+        Some(h) => {
+            let loc = Location::caller();
+            let a = Access {
+                addr: 0,
+                kind: Kind::Fence,
+                ord,
+                fail_ord: None,
+                arg0: 0,
+                arg1: 0,
+                file: loc.file(),
+                line: loc.line(),
+            };
+            h.before(&a);
+            core::sync::atomic::fence(ord);
+            h.after(&a, 0, true);
         }
     }
 }
